@@ -241,7 +241,10 @@ def stft_huge_case(draw):
     spec["n"] = draw(st.sampled_from([2**21 + 64, 2**22 + 192, 3000017, 2**21, 2**22 + 1, 4500000]))
     spec["sshape"] = [draw(st.sampled_from([1, 2, 2]))]
     spec["data"] = {"kind": "noise", "seed": draw(st.integers(0, 1000))}
-    return {"sig": spec, "M": draw(st.sampled_from([64, 1000, 4096, 7, 250])), "tone_c": 0, "tone_b": 0, "data": "noise"}
+    M = draw(st.sampled_from([64, 1000, 4096, 7, 250, 64, 1000, 4096, 2**18, 2**20, 2**20]))
+    if M >= 2**18:
+        spec["dtype"] = "c16"  # very long segments in double precision: an error growing with the segment length shows here
+    return {"sig": spec, "M": M, "tone_c": 0, "tone_b": 0, "data": "noise"}
 
 
 def run_stft(case, stt):
@@ -267,8 +270,19 @@ def run_stft(case, stt):
     assert_rate(s, rate / M, 1, "stft: ")
     same_start(s, z, "stft: ")
     labels = G.exact_labels(spec)
-    exp = [f + (F(j) - M // 2) * rate / M for f in labels for j in range(M)]
-    assert_labels(s, exp, 2, "stft sub-channel labels: ")
+    if nchan * M <= 20000:
+        exp = [f + (F(j) - M // 2) * rate / M for f in labels for j in range(M)]
+        assert_labels(s, exp, 2, "stft sub-channel labels: ")
+    else:
+        # very many sub-channels: their number, and the exact label of every (nchan*M/257)-th one plus the edges of every channel
+        got = np.asarray(s.channel_freqs.to_value(u.Hz), dtype=np.float64)
+        check(got.shape == (nchan * M,), "stft: {} sub-channel labels for {} sub-channels", got.shape, nchan * M)
+        pick = sorted(set(list(range(0, nchan * M, max(1, nchan * M // 257))) + [c * M + j for c in range(nchan) for j in (0, 1, M // 2, M - 1)]))
+        scale = max(abs(labels[0]), abs(labels[-1])) + rate * nchan
+        for idx in pick:
+            e = labels[idx // M] + (F(idx % M) - M // 2) * rate / M
+            check(abs(F(float(got[idx])) - e) <= scale * F(2.220446049250313e-16) * 12, "stft sub-channel {} labelled {!r} Hz, expected {!r} Hz", idx,
+                  float(got[idx]), float(e))
     # data: per segment DFT, fftshifted, /M
     seg = x[: K * M].reshape((K, M) + x.shape[1:])
     ref = np.fft.fftshift(np.fft.fft(seg.astype(np.complex128), axis=1), axes=1) / M  # (K, M, nchan, ...)
@@ -276,8 +290,10 @@ def run_stft(case, stt):
     single = x.dtype == np.complex64
     scale = max(float(np.max(np.abs(x))), 1e-30)
     tol = (1e-5 if single else 1e-12) * scale * (1 + math.log2(max(M, 2)))
+    # the transform's rounding error is relative to the spectrum it produces (for noise that is ~ scale / sqrt(M))
+    tol_spec = (1e-5 if single else 1e-12) * (1 + math.log2(max(M, 2))) * (float(np.max(np.abs(ref))) if ref.size else 0.0)
     err = float(np.max(np.abs(np.asarray(s.data) - ref))) if ref.size else 0.0
-    check(err <= tol, "stft data differ from the per-segment DFT by {:.3g} (tol {:.3g})", err, tol)
+    check(err <= tol_spec, "stft data differ from the per-segment DFT by {:.3g} (tol {:.3g})", err, tol_spec)
     if case["data"] == "tone" and K > 0:
         j = case["tone_c"] * M + case["tone_b"] + M // 2
         mag = np.abs(np.asarray(s.data))
@@ -324,7 +340,7 @@ SUBS = [
         "istft restores data/rate/start/labels; non-trivial = even nchan >= 2 with 'bottom'/'top'", quick=2000, thorough=40000, pieces_quick=4),
     Sub("stft_huge_signals", stft_huge_case(), run_stft,
         "the same checks on NumPy signals of 2^21 .. 4.5e6 samples x 1-2 channels (beyond 2^22 elements), nperseg 7..4096; every case non-trivial "
-        "by size", quick=8, thorough=48, pieces_quick=2, pieces_thorough=8, budget_quick=120),
+        "by size", quick=10, thorough=60, pieces_quick=2, pieces_thorough=8, budget_quick=150),
     Sub("stft_refusals", G.signal_spec(classes=["Signal", "RadioSignal", "IntensitySignal"], nmin=4, nmax=8, nchan_max=2, max_trailing=0), run_stft_err,
         "non-baseband input is refused", quick=30, thorough=300, pieces_quick=1),
 ]
